@@ -1283,6 +1283,7 @@ C19_LIMITS = [
     ({"max_qos": 0, "ack_max_qos": 1}, "qos"),
     ({"max_size": 64}, "oversize"),
     ({"max_size": 0, "ack_max_packet_size": 48}, "oversize"),
+    ({"max_size": 64, "ack_max_packet_size": 0}, "oversize_ok"),      # the handshake service LIFTS the configured limit
     ({"max_topic_alias": 2}, "alias_over"),
     ({"max_topic_alias": 2}, "alias_at"),
     ({"max_topic_alias": 8, "ack_topic_alias_max": 1}, "alias_over"),
@@ -1340,7 +1341,7 @@ def c19_decode_for(endpoint):
             if probe == "qos":
                 eff = lim.get("ack_max_qos", lim.get("max_qos", 1)) if ver == 5 else lim.get("max_qos", 1)
                 cmds.append({"c": "in", "p": {"t": "publish", "ver": ver, "q": eff + 1, "id": 77, "topic": "t", "plen": 1}})
-            elif probe == "oversize":
+            elif probe in ("oversize", "oversize_ok"):
                 cmds.append({"c": "in", "p": {"t": "publish", "ver": ver, "q": 1, "id": 77, "topic": "t", "plen": 100}})
             elif probe == "alias_over":
                 cmds.append({"c": "in", "p": {"t": "publish", "ver": 5, "q": 1, "id": 77, "topic": "t", "alias": eff_alias + 1, "plen": 1}})
